@@ -67,8 +67,13 @@ def stepAsker (toks : List String) (impl : String) : Res :=
   -- accepted records are reported by id index (= position of the first record carrying that id)
   let accPos := accepted.map (·.id)
   let m := "accepted=" ++ (if accPos.isEmpty then "-" else ",".intercalate (accPos.map toString))
-  { model := m, monitor := if relayMis then ["relay_class_rendering"] else [],
-    tags := ["nodesresp", s!"acc{accepted.length}", s!"n{recs.length}"], nontrivial := recs.length ≥ 2 }
+  -- the property's clause on the implementation's own answer: every record it used must be signed, at a requested
+  -- distance, relay-safe, on a port above 1024, and used once
+  let implAcc := parseNats ((impl.splitOn "=").getD 1 "")
+  let okRec (id : Nat) : Bool := recs.any fun p => p.2.id == id && p.2.signed && p.2.relayOk && p.2.udp > 1024 && req.contains p.2.dist
+  let bad := impl.startsWith "accepted=" && (implAcc.any (fun id => !okRec id) || implAcc.eraseDups.length != implAcc.length)
+  { model := m, monitor := (if relayMis then ["relay_class_rendering"] else []) ++ (if bad then ["record_used_only_if"] else []),
+    tags := ["nodesresp", s!"acc{accepted.length}", s!"n{recs.length}", if req.isEmpty then "req-empty" else "req-some"], nontrivial := recs.length ≥ 2 }
 
 def step (toks : List String) (impl : String) : Res :=
   match toks.head? with
